@@ -205,6 +205,22 @@ func c17Reattach(when string, bound int) *explore.Scenario {
 			if when == "before-old-fails" {
 				t.Proxy.AddClient("b", nb.B)
 				vsched.Quiesce()
+				// traffic for b while the replaced connection is still alive (idle): it belongs to the new one
+				peers["a"].A.Inject(c17Msg(41, "a", "b"))
+				peers["a"].A.Inject(c17Msg(42, "a", "b"))
+				peers["a"].A.Inject(c17Msg(43, "a", "b"))
+				vsched.Quiesce()
+				for _, id := range []uint64{41, 42, 43} {
+					nn := 0
+					for _, e := range t.Tap.Events {
+						if e.Wire == "b2" && e.Dir == "b2a" && e.Rpc.GetId() == id {
+							nn++
+						}
+					}
+					if nn != 1 {
+						vsched.Fail(fam+"|newer-connection-disturbed", "peer b re-attached while its old connection is still alive: envelope %d reached the new connection %d times (old connection got %d)", id, nn, delivered(t, "b", id))
+					}
+				}
 				old.B.Break() // the old connection's read fails now
 				old.A.Break()
 			} else {
